@@ -1183,6 +1183,163 @@ def brace_balance(fmt: Fmt, spec: Any) -> tuple[str, str, Any] | None:
     return None
 
 
+# ------------------------------------------------------------------------------------------------ flexanimations (text scenes)
+# Known finding of C20: Event.export_text writes the `flexanimations` block, Scene.parse_text raises NotImplementedError on it.  So the
+# round trip of a text scene with a flex track ends there.  Everything else is still checked: (1) the scene WITHOUT its flex tracks
+# goes through the ordinary round trip (search_format), (2) the file of the full scene, with every flexanimations block cut out at
+# token level, must be token for token the file of the stripped scene (the block disturbs nothing around it), and (3) every block
+# is read by the check's own reader below (written from the grammar the writer emits: options after the keyword, per track the
+# name, options, one or two sample blocks; numbers by float(), curve names by CurveType.parse_text) and must give the tracks and the
+# default curve type of its event: the written text determines the value, which is the writer's half of the property.
+
+def scene_spec_events(spec: dict) -> list[dict]:
+    """event specs in the order Scene.export_text writes them"""
+    return list(spec.get('events', [])) + [e for a in spec.get('actors', []) for c in a['channels'] for e in c['events']]
+
+
+def has_flex(spec: Any) -> bool:
+    return isinstance(spec, dict) and any(e.get('flex') for e in scene_spec_events(spec))
+
+
+def strip_flex(spec: dict) -> dict:
+    import copy
+    out = copy.deepcopy(spec)
+    for e in scene_spec_events(out):
+        e['flex'] = []
+        e.pop('def_curve', None)        # without tracks the line carrying the default curve type is not written
+    return out
+
+
+def _collapse_newlines(toks: list) -> list:
+    from srctools.tokenizer import Token
+    out: list = []
+    for t in toks:
+        if t[0] is Token.NEWLINE and out and out[-1][0] is Token.NEWLINE:
+            continue
+        out.append(t)
+    return out
+
+
+def read_flex_block(toks: list, i: int) -> tuple[Any, list, int]:
+    """toks[i] is the keyword `flexanimations` at the start of a line.  Returns (default curve type or None, tracks, index after the
+    closing brace); raises ValueError where the text is not of the shape the writer is meant to produce."""
+    from srctools import choreo as C
+    from srctools.tokenizer import Token
+
+    def need(kind, what):
+        nonlocal i
+        if i >= len(toks) or toks[i][0] is not kind:
+            raise ValueError(f'{what} expected at token {i}, got {toks[i] if i < len(toks) else "end of file"}')
+        i += 1
+        return toks[i - 1][1]
+
+    def skip_nl():
+        nonlocal i
+        while i < len(toks) and toks[i][0] is Token.NEWLINE:
+            i += 1
+
+    def samples(default):
+        nonlocal i
+        skip_nl()
+        need(Token.BRACE_OPEN, 'sample block')
+        out = []
+        while True:
+            skip_nl()
+            if i < len(toks) and toks[i][0] is Token.BRACE_CLOSE:
+                i += 1
+                return out
+            t, v = float(need(Token.STRING, 'sample time')), float(need(Token.STRING, 'sample value'))
+            if i < len(toks) and toks[i][0] is Token.STRING:
+                out.append(C.ExpressionSample(t, v, C.CurveType.parse_text(need(Token.STRING, 'curve'))))
+            else:
+                need(Token.NEWLINE, 'end of the sample line')
+                out.append(C.ExpressionSample(t, v, default))
+
+    def edge():
+        curve = C.CurveType.parse_text(need(Token.STRING, 'edge curve'))
+        return C.CurveEdge(True, float(need(Token.STRING, 'edge zero position')), curve)
+    i += 1
+    default = None
+    while i < len(toks) and toks[i][0] is not Token.NEWLINE:
+        opt = need(Token.STRING, 'option of flexanimations').casefold()
+        if opt == 'defaultcurvetype':
+            need(Token.EQUALS, '=')
+            default = C.CurveType.parse_text(need(Token.STRING, 'default curve type'))
+        elif opt != 'samples_use_time':
+            raise ValueError(f'unknown option {opt!r} after flexanimations')
+    skip_nl()
+    need(Token.BRACE_OPEN, 'block of tracks')
+    tracks = []
+    while True:
+        skip_nl()
+        if i < len(toks) and toks[i][0] is Token.BRACE_CLOSE:
+            return default, tracks, i + 1
+        name = need(Token.STRING, 'track name')
+        kw: dict = dict(active=True, min=0.0, max=1.0, left=C.CurveEdge(False), right=C.CurveEdge(False))
+        combo = False
+        while i < len(toks) and toks[i][0] is Token.STRING:
+            opt = need(Token.STRING, 'track option').casefold()
+            if opt == 'disabled':
+                kw['active'] = False
+            elif opt == 'combo':
+                combo = True
+            elif opt == 'range':
+                kw['min'], kw['max'] = float(need(Token.STRING, 'range minimum')), float(need(Token.STRING, 'range maximum'))
+            elif opt == 'leftedge':
+                kw['left'] = edge()
+            elif opt == 'rightedge':
+                kw['right'] = edge()
+            else:
+                raise ValueError(f'unknown track option {opt!r}')
+        cur = default if default is not None else C.CURVE_DEFAULT
+        mag = samples(cur)
+        tracks.append(C.FlexAnimTrack(name=name, mag_track=mag, dir_track=samples(cur) if combo else None, **kw))
+
+
+def flex_oracle(fmt: 'Fmt', spec: Any) -> tuple[str, str, Any] | None:
+    """Text scenes with flex tracks (see the comment above): None if the flexanimations blocks of the written file give back the
+    tracks of their events and the rest of the file is the file of the scene without flex tracks."""
+    from srctools.tokenizer import Tokenizer, Token
+    from srctools import choreo as C
+    try:
+        obj = limited(fmt.build, spec)
+        text = limited(fmt.write, obj)
+        bare = limited(fmt.write, limited(fmt.build, strip_flex(spec)))
+        toks = limited(lambda: list(Tokenizer(text)))
+        want_rest = limited(lambda: list(Tokenizer(bare)))
+    except Exception:
+        return None                 # reported by the round trip / the brace oracle
+    events = [e for e in obj.iter_events() if e.flex_anim_tracks]
+    rest: list = []
+    blocks: list = []
+    i = 0
+    while i < len(toks):
+        t = toks[i]
+        if t[0] is Token.STRING and t[1].casefold() == 'flexanimations' and i > 0 and toks[i - 1][0] is Token.NEWLINE:
+            try:
+                default, tracks, i = read_flex_block(toks, i)
+            except (ValueError, KeyError) as e:
+                return ('flex-block', 'not-the-grammar-of-the-block', {'error': repr(e)[:300], 'written': text[:1500]})
+            blocks.append((default, tracks))
+            continue
+        rest.append(t)
+        i += 1
+    a, b = _collapse_newlines(rest), _collapse_newlines(want_rest)
+    if a != b:
+        n = next((k for k, (x, y) in enumerate(zip(a, b)) if x != y), min(len(a), len(b)))
+        return ('flex-block', 'changes-the-rest-of-the-file', {'first_differing_token': n, 'with_block': repr(a[max(0, n - 4):n + 4]),
+                                                               'without_flex_tracks': repr(b[max(0, n - 4):n + 4])})
+    if len(blocks) != len(events):
+        return ('flex-block', 'number-of-blocks', {'blocks_in_file': len(blocks), 'events_with_tracks': len(events)})
+    for k, ((default, tracks), ev) in enumerate(zip(blocks, events)):
+        got = {'default_curve_type': canon_any(default if default is not None else C.CURVE_DEFAULT), 'tracks': canon_any(tracks)}
+        want = {'default_curve_type': canon_any(ev.default_curve_type), 'tracks': canon_any(ev.flex_anim_tracks)}
+        d = diff_path(want, got)
+        if d is not None:
+            return ('flex-block', 'value-diff' + d, {'block': k, 'first_difference_at': d})
+    return None
+
+
 # ------------------------------------------------------------------------------------------------ observer effect
 # A writer must not depend on whether somebody LOOKED at the value before: lazily created attributes (Sound.stack_start stores an
 # empty block on first read, Entry.data parses the blob on first read), caches, repr().  `observe` reads every property of every
